@@ -11,6 +11,7 @@ import (
 	bsmsg "github.com/ipfs/boxo/bitswap/message"
 	pb "github.com/ipfs/boxo/bitswap/message/pb"
 	bsnet "github.com/ipfs/boxo/bitswap/network"
+	"github.com/ipfs/boxo/internal/verifhook"
 	cid "github.com/ipfs/go-cid"
 	logging "github.com/ipfs/go-log/v2"
 	peer "github.com/libp2p/go-libp2p/core/peer"
@@ -765,6 +766,7 @@ func (mq *MessageQueue) extractOutgoingMessage(supportsHave bool) (bsmsg.BitSwap
 		peerEntries = filteredPeerEntries
 	}
 	mq.wllock.Unlock()
+	verifhook.Point("mq.window")
 
 	// We prioritize cancels, then regular wants, then broadcast wants.
 
